@@ -111,7 +111,11 @@ def handleApply (j : J) : Except String J := do
   let identTy ← (← j.get "ident_ty").toNat
   let idOf := fun m => ((ids.find? (·.1 == m)).map (·.2)).getD m
   let app := fun (m : Nat) => callChain steps (some (.ok ⟨identTy, (m : Int), some m⟩))
-  match applyTo idOf app store inputs order with
+  -- "contains": "ok" (directory store: only completed records count, the default) | "any" (SQLite store)
+  let anyRec := match j.get? "contains" with
+    | some (.str "any") => true
+    | _ => false
+  match (if anyRec then applyToBy hasAny idOf app store inputs order else applyTo idOf app store inputs order) with
   | none => pure (.obj [("err", .str "ValueError")])
   | some s => pure (.obj [("store", storeJ s)])
 
